@@ -651,6 +651,7 @@ theorem headOut_src (role : Role) (H : Hdr) (st' : St σ) (o : FOut) : (headOut 
     | pending => rfl
     | _ => exact (fsErr_keeps _ _).1
 
+omit hdl in
 theorem pollHead_len (role : Role) (H : Hdr) (st : St σ) : len (pollHead role S' H st).2.src ≤ len st.src := by
   rw [pollHead_eq, headOut_src]
   exact hn _
@@ -739,7 +740,7 @@ theorem documentedR_eq (L : PendLaws S len) (role : Role) (H : Hdr) (N K fuel : 
     (hK : len st.src < K) (hN : fuel ≤ N)
     (hni : ∀ r ∈ (documented role (skipSrc S len) H fuel st).body, r ≠ .invalid) :
     documentedR role S len H N K fuel st = documented role (skipSrc S len) H fuel st := by
-  have hlen1 := pollHead_len (len := len) (skip_next_len L) (skip_data_len L) role H st
+  have hlen1 := pollHead_len (len := len) (skip_next_len L) role H st
   unfold documentedR documented at *
   rw [retry_pollHead L role H K st (by omega)]
   rcases hq : pollHead role (skipSrc S len) H st with ⟨h, st1⟩
